@@ -114,6 +114,46 @@ def meta_raw(E, text):
         return ('raises', type(e).__name__)
 
 
+def record_meta(E, text):
+    """run the code's own parser class on the text with a recorder in front of its callback:
+    -> (start tags html.parser reported [(tag, [(name, value|None)])], exception class name | None, p.content_type)"""
+    events = []
+
+    class Rec(E._MetaHTMLParser):
+        def handle_starttag(self, tag, attrs):
+            events.append((tag, list(attrs)))
+            super().handle_starttag(tag, attrs)
+    p = Rec()
+    try:
+        p.feed(text)
+    except Exception as e:          # noqa: BLE001
+        return events, type(e).__name__, None
+    return events, None, p.content_type
+
+
+def msg_stage(content):
+    """what email.message.Message answers for a content string (input of the model)
+    -> ('ok', media_type, None | str | ('T', collapsed)) | ('raises', exc class name)"""
+    try:
+        m = Message()
+        m['content-type'] = content
+        cs = m.get_param('charset')
+        if isinstance(cs, tuple):       # RFC 2231: the model is given what email.utils makes of the triple
+            cs = ('T', email.utils.collapse_rfc2231_value(cs))
+        return ('ok', m.get_content_type(), cs)
+    except Exception as e:          # noqa: BLE001
+        return ('raises', type(e).__name__)
+
+
+def enc_events(events):
+    ws = []
+    for tag, attrs in events:
+        ws += ['T', enc(tag), str(len(attrs))]
+        for a, v in attrs:
+            ws += [enc(a), opt(v)]
+    return ' '.join(ws)
+
+
 # ----------------------------------------------------------------------------------------------
 # vocabularies
 ENC_A, ENC_B, ENC_C = 'enc-a', 'Enc-B', 'ENC-C'
@@ -209,6 +249,7 @@ class C20(Check):
         self.process(ctx, E, self.gen_sniff(ctx, rng), 'sniff')
         self.process(ctx, E, self.gen_table(ctx), 'table')
         self.process(ctx, E, self.gen_info(ctx, rng), 'info')
+        self.process(ctx, E, self.gen_metascan(ctx, rng), 'metascan')
         self.default_log_path(ctx, E)
 
     def corpus(self, ctx):
@@ -458,6 +499,43 @@ class C20(Check):
                            'resp': {'kind': 'message', 'content_type': mt, 'body': None}, 'media_type': mt, 'charset': None})
         return ws
 
+    # -- attribute lists straight into the callback of the meta parser --------------------------------------
+    def gen_metascan(self, ctx, rng):
+        """sequences of handle_starttag calls: what html.parser can report (lower-case names, None for a value-less
+        attribute, repeated attributes) and beyond (the callback lower-cases names itself)"""
+        tags = ['meta'] * 8 + ['META', 'link', 'title', 'metadata', 'met', '']
+        names = ['http-equiv'] * 4 + ['content'] * 4 + ['HTTP-EQUIV', 'Http-Equiv', 'CONTENT', 'name', 'charset',
+                                                         'http-equiv ', 'httpequiv', 'contents', 'É']
+        equivs = ['Content-Type', 'content-type', ' content-type ', 'CONTENT-TYPE\t', '\ncontent-type', 'content-type;',
+                  'refresh', 'Content-Typ', '', None, 'content type', '\xa0content-type ']
+        contents = ['text/html;charset=X', 'TEXT/HTML; Charset=É', 'text/html', '', None, ' ', 'A', 'b', 'application/xhtml+xml; charset=Enc-B']
+        ws = []
+        fixed = [
+            [('meta', [('http-equiv', 'Content-Type'), ('content', 'A')]), ('meta', [('http-equiv', 'Content-Type'), ('content', 'B')])],
+            [('meta', [('http-equiv', 'Content-Type'), ('content', '')]), ('meta', [('http-equiv', 'Content-Type'), ('content', 'B')])],
+            [('meta', [('http-equiv', 'Content-Type')]), ('meta', [('http-equiv', 'Content-Type'), ('content', 'B')])],
+            [('meta', [('http-equiv', 'Content-Type'), ('content', None)]), ('meta', [('content', 'B'), ('http-equiv', 'Content-Type')])],
+            [('meta', [('http-equiv', 'refresh'), ('http-equiv', 'Content-Type'), ('content', 'A'), ('content', 'Z')])],
+            [('meta', [('http-equiv', 'Content-Type'), ('http-equiv', 'refresh'), ('content', 'A')]), ('meta', [('HTTP-EQUIV', 'CONTENT-TYPE'), ('CONTENT', 'Q')])],
+            [('meta', [('charset', None)]), ('META', [('http-equiv', 'Content-Type'), ('content', 'up')]), ('meta', [('http-equiv', ' Content-Type '), ('content', 'low')])],
+            [], [('meta', [])], [('link', [('http-equiv', 'Content-Type'), ('content', 'A')])],
+        ]
+        for ev in fixed:
+            ws.append({'call': 'metaScan', 'events': [[t, [list(a) for a in at]] for t, at in ev]})
+        for _ in range(ctx.n(2500, 120000)):
+            ev = []
+            for _ in range(rng.randint(1, 4)):
+                attrs = []
+                for _ in range(rng.randint(0, 4)):
+                    n = rng.choice(names)
+                    low = n.strip().lower()
+                    v = rng.choice(equivs) if low == 'http-equiv' else rng.choice(contents) if low == 'content' \
+                        else rng.choice(['n', None, 'Content-Type', 'utf-8'])
+                    attrs.append([n, v])
+                ev.append([rng.choice(tags), attrs])
+            ws.append({'call': 'metaScan', 'events': ev})
+        return ws
+
     def default_log_path(self, ctx, E):
         """a few calls without log= (the default path builds a log and fills logtext); observables must be the same"""
         for mt, text in [('text/html; charset=A', '<meta http-equiv="Content-Type" content="text/html;charset=b">'),
@@ -499,6 +577,8 @@ class C20(Check):
                 return self.plan_sniff(E, w)
             if call == 'getEncodingInfo':
                 return self.plan_info(E, w)
+            if call == 'metaScan':
+                return self.plan_metascan(E, w)
         raise ValueError('unknown witness %r' % (w,))
 
     def plan_sniff(self, E, w):
@@ -524,6 +604,17 @@ class C20(Check):
         line = 'xml %d %d %d %s' % (form == 'BytesIO', incl, pos if isfile else 0, enc(d))
         return {'lines': [line], 'impl': [got], 'res': res, 'after': after, 'isfile': isfile}
 
+    def plan_metascan(self, E, w):
+        p = E._MetaHTMLParser()
+        try:
+            for tag, attrs in w['events']:
+                p.handle_starttag(tag, [tuple(a) for a in attrs])
+            res = ('OK', p.content_type)
+        except Exception as e:      # noqa: BLE001
+            res = ('ERR', type(e).__name__)
+        got = opt(res[1]) if res[0] == 'OK' else 'ERR ' + res[1]
+        return {'lines': ['meta ' + enc_events(w['events'])], 'impl': [got], 'res': res}
+
     def plan_info(self, E, w):
         resp = build_resp(w['resp'])
         text = w['text']
@@ -545,18 +636,41 @@ class C20(Check):
             mt = cs = body = None
         eff = text if text is not None else (body if body is not None else '')
         mr = meta_raw(E, eff)
-        if mr[0] == 'found':
-            p = mr[2]
-            mwords = 'found %s %s' % (enc(mr[1]), 'N' if p is None else ('T' + enc(p[1]) if isinstance(p, tuple) else enc(p)))
+        # the meta stage: the start tags html.parser reports for the decoded document (input of the model), what the
+        # callback of the code makes of them (compared with the model's metaScan), what Message answers (input)
+        events, hexc, ctype = record_meta(E, eff)
+        if hexc is not None:
+            mwords, hkind = 'none - - N', 'raises'
         else:
-            mwords = '%s - N' % mr[0]
-        line = 'info %d %s %s %s %s %s N' % (resp is not None, opt(mt), opt(cs), opt(body), opt(text), mwords)
+            hkind = 'ok'
+            if ctype:
+                ms = msg_stage(ctype)
+                if ms[0] == 'ok':
+                    pv = ms[2]
+                    mwords = 'ok %s %s %s' % (enc(ctype), enc(ms[1]),
+                                              'N' if pv is None else ('T' + enc(pv[1]) if isinstance(pv, tuple) else enc(pv)))
+                else:
+                    mwords = 'raises %s - N' % enc(ctype)
+            else:
+                mwords = 'none - - N'
+        isb = bool(w.get('bytes'))
+        bkind = 'N' if body is None else ('B' if w['resp'].get('body_bytes') else 'S')
+        tkind = 'N' if text is None else ('B' if isb else 'S')
+        line = 'infod %d %s %s %s %s %s %s %s N %s %s' % (
+            resp is not None, opt(mt), opt(cs), bkind, '-' if body is None else enc(body), tkind,
+            '-' if text is None else enc(text), mwords, hkind, enc_events(events))
+        lines = [line.rstrip()]
+        impls = []
+        if hexc is None:
+            lines.append(('meta ' + enc_events(events)).rstrip())
+            impls.append(opt(ctype))
         if res[0] == 'OK':
             got = 'OK %s %d %s %s %s %s %s' % (opt(res[1]), res[2], opt(res[3]), opt(res[4]), opt(res[5]), opt(res[6]),
                                                opt(res[7]))
         else:
             got = 'ERR ' + res[1]
-        return {'lines': [line], 'impl': [got], 'res': res, 'eff': eff, 'meta_raw': mr, 'mt': mt, 'cs': cs}
+        return {'lines': lines, 'impl': [got] + impls, 'res': res, 'eff': eff, 'meta_raw': mr, 'mt': mt, 'cs': cs,
+                'events': events, 'ctype': ctype, 'hexc': hexc}
 
     # ------------------------------------------------------------------------------------------------
     def judge(self, ctx, E, w, pl, model):
@@ -578,6 +692,10 @@ class C20(Check):
             self.oracle_sniff(ctx, E, w, pl)
         elif call == 'getEncodingInfo':
             self.oracle_info(ctx, E, w, pl)
+            if pl['hexc'] is None:
+                self.oracle_meta(ctx, w, pl['events'], ('OK', pl['ctype']), case=False)
+        elif call == 'metaScan':
+            self.oracle_meta(ctx, w, w['events'], pl['res'], case=True)
 
     def oracle_classify(self, ctx, E, w, pl):
         mt = w['media_type']
@@ -616,6 +734,21 @@ class C20(Check):
         if pl['isfile'] and pl['after'] != pos:
             ctx.violate('XML sniffing leaves the stream position untouched', w, {'before': pos, 'after': pl['after'],
                                                                               'impl': list(res)})
+
+    def oracle_meta(self, ctx, w, events, res, case):
+        want = S.spec_meta(events)
+        if case:
+            ctx.case(key=('metascan', json.dumps(events)), nontrivial=any(t == 'meta' and a for t, a in events),
+                     kind='metaScan:' + ('decided' if want else 'none'), sample={'events': events, 'impl': list(res)})
+        if res[0] == 'ERR':
+            ctx.violate('the meta sniffer survives every attribute list the HTML parser can report (it raised)', w,
+                        {'impl': list(res)})
+            return
+        got = res[1] or None
+        if got != want:
+            ctx.violate('the Content-Type <meta> used is the first one that has a content (http-equiv stripped and '
+                        'case-insensitive, last attribute of a name counts)', w, {'impl': res[1], 'spec': want,
+                                                                                 'events': events})
 
     def oracle_info(self, ctx, E, w, pl):
         res, doc = pl['res'], as_text(pl['eff'])
